@@ -1015,8 +1015,10 @@ impl<'a> CompilerState<'a> {
             .map_infix(|lhs, op, rhs| {
                 // An error in an operand is the result: propagate it instead of unwrapping
                 let (lhs, rhs) = (lhs?, rhs?);
+                // A result that does not fit is rejected, like a division by zero
+                let overflow = || self.syntax_error("Constant expression overflow", op.as_span().start());
                 let res = match op.as_rule() {
-                    Rule::mul => lhs * rhs,
+                    Rule::mul => lhs.checked_mul(rhs).ok_or_else(overflow)?,
                     Rule::div => {
                         let d = rhs;
                         if d == 0 {
@@ -1025,13 +1027,19 @@ impl<'a> CompilerState<'a> {
                         }
                         lhs / d
                     }
-                    Rule::add => lhs + rhs,
-                    Rule::sub => lhs - rhs,
+                    Rule::add => lhs.checked_add(rhs).ok_or_else(overflow)?,
+                    Rule::sub => lhs.checked_sub(rhs).ok_or_else(overflow)?,
                     Rule::and => lhs & rhs,
                     Rule::or => lhs | rhs,
                     Rule::xor => lhs ^ rhs,
-                    Rule::brs => lhs >> rhs,
-                    Rule::bls => lhs << rhs,
+                    Rule::brs => u32::try_from(rhs)
+                        .ok()
+                        .and_then(|r| lhs.checked_shr(r))
+                        .ok_or_else(overflow)?,
+                    Rule::bls => u32::try_from(rhs)
+                        .ok()
+                        .and_then(|r| lhs.checked_shl(r))
+                        .ok_or_else(overflow)?,
                     Rule::land => {
                         if lhs != 0 && rhs != 0 {
                             1
@@ -1113,7 +1121,9 @@ impl<'a> CompilerState<'a> {
                 Ok(res)
             })
             .map_prefix(|op, rhs| match op.as_rule() {
-                Rule::neg => Ok(-rhs?),
+                Rule::neg => rhs?.checked_neg().ok_or_else(|| {
+                    self.syntax_error("Constant expression overflow", op.as_span().start())
+                }),
                 Rule::not => Ok(!rhs?),
                 Rule::bnot => Ok(!rhs?),
                 _ => unreachable!(),
